@@ -19,6 +19,7 @@ var propPkgs = map[string][]string{
 	"C05": {"banyand/internal/snapshot"},
 	"C16": {"pkg/node", "pkg/partition", "pkg/convert"},
 	"C10": {"pkg/query/aggregation"},
+	"C13": {"pkg/pipeline/sdk"},
 }
 
 type Finding struct {
